@@ -435,6 +435,24 @@ func c04paramBody(c *xplore.Ctx) (text string, form string, fs []ev.Finding, ski
 	return wit, spec.Form, fs, false
 }
 
+// c04corpusBody: the statements of the grammar model as they are, values included (also those the model calls invalid:
+// the parser has to answer something). What a handler computes from the values of two clauses (a ratio, a comparison)
+// is computed here.
+func c04corpusBody(c *xplore.Ctx) (text string, form string, fs []ev.Finding, skipped bool) {
+	g := gram.New(c)
+	spec := gram.Statement(g)
+	text = gram.Render(nil, spec.Toks)
+	cs := vecCase{Vector: c.Vector()}
+	for _, e := range []int{0, 1} {
+		f, _ := c04parse(text, e, nil, cs, fmt.Sprintf("%s(%q)", c04entries[e], text), c.TotalCost()*1000+len(text))
+		for i := range f {
+			f[i].Sig = "corpus:" + f[i].Sig
+		}
+		fs = append(fs, f...)
+	}
+	return text, spec.Form, fs, false
+}
+
 // c04editBody: statement x single token edit (delete, replace by sigma, insert sigma).
 func c04editBody(alpha []string) func(c *xplore.Ctx) (string, string, []ev.Finding, bool) {
 	return func(c *xplore.Ctx) (text string, form string, fs []ev.Finding, skipped bool) {
@@ -501,7 +519,7 @@ func init() {
 			var c vecCase
 			json.Unmarshal(raw, &c)
 			var out []ev.Finding
-			for _, body := range []func(*xplore.Ctx) (string, string, []ev.Finding, bool){c04paramBody, c04editBody(lexx.Core), c04editBody(lexx.Sigma)} {
+			for _, body := range []func(*xplore.Ctx) (string, string, []ev.Finding, bool){c04paramBody, c04editBody(lexx.Core), c04editBody(lexx.Sigma), c04corpusBody} {
 				func() {
 					defer func() { recover() }()
 					xplore.Replay(func(x *xplore.Ctx) { _, _, f, _ := body(x); out = append(out, f...) }, c.Vector)
@@ -594,13 +612,19 @@ func c04run(r *ev.Run) {
 		sets = []boundSet{{"token edits: struct<=2 x every position x {delete, replace, insert} x full alphabet", []int{2, 0, 0}}}
 	}
 	runGrammar(r, sets, c04editBody(editAlpha))
+	csets := []boundSet{{"corpus as generated: struct<=2,value<=1", []int{2, 0, 1}}}
+	if th {
+		csets = []boundSet{{"corpus as generated: struct<=3,value<=1", []int{3, 0, 1}}, {"corpus as generated: struct<=2,value<=2", []int{2, 0, 2}}}
+	}
+	runGrammar(r, csets, c04corpusBody)
+	corpusNames := r.Extra["bound_sets"]
 	psets := []boundSet{{"parameters: struct<=1 x every value slot x adversarial values", []int{1, 0, 0, 1}}}
 	if th {
 		psets = []boundSet{{"parameters: struct<=2 x every value slot x adversarial values", []int{2, 0, 0, 1}}}
 	}
 	editNames := r.Extra["bound_sets"]
 	runGrammar(r, psets, c04paramBody)
-	r.Set("bound_sets", []interface{}{editNames, r.Extra["bound_sets"]})
+	r.Set("bound_sets", []interface{}{editNames, corpusNames, r.Extra["bound_sets"]})
 	// (c) nesting ladders
 	maxN := 4096
 	if th {
